@@ -148,6 +148,14 @@ def _flatten(obs):
         for o in obs:
             out.extend(_flatten(o))
         return out
+    if type(obs).__module__.startswith("grid."):
+        # a look at every public property of a library object the call handed out (values discarded): a getter is a
+        # public operation too and must leave the caller's data alone
+        for nm in sorted(n for n in dir(type(obs)) if not n.startswith("_") and isinstance(getattr(type(obs), n, None), property)):
+            try:
+                getattr(obs, nm)
+            except Exception:  # noqa: BLE001
+                pass
     if hasattr(obs, "points") and hasattr(obs, "weights"):
         out.append(np.asarray(obs.points, dtype=float))
         out.append(np.asarray(obs.weights, dtype=float))
